@@ -693,6 +693,14 @@ func (sl *SignalLayout) decodeStandardSignal(stdSig *StandardSignal, rawValue ui
 	}
 
 	sigType := stdSig.typ
+
+	// two's complement reading of the raw value, used by signed types only
+	extValue := rawValue
+	if sigType.signed && rawValue&(1<<(sigType.size-1)) != 0 {
+		// extend sign of raw value
+		extValue |= (1<<64 - 1) << sigType.size
+	}
+
 	switch sigType.kind {
 	case SignalTypeKindFlag:
 		valueType = SignalValueTypeFlag
@@ -701,13 +709,6 @@ func (sl *SignalLayout) decodeStandardSignal(stdSig *StandardSignal, rawValue ui
 	case SignalTypeKindInteger:
 		if sigType.signed {
 			valueType = SignalValueTypeInt
-
-			extValue := rawValue
-			if rawValue&(1<<(sigType.size-1)) != 0 {
-				// extend sign of raw value
-				extValue |= (1<<64 - 1) << sigType.size
-			}
-
 			value = int64(extValue)*int64(sigType.scale) + int64(sigType.offset)
 
 		} else {
@@ -717,7 +718,12 @@ func (sl *SignalLayout) decodeStandardSignal(stdSig *StandardSignal, rawValue ui
 
 	case SignalTypeKindDecimal, SignalTypeKindCustom:
 		valueType = SignalValueTypeFloat
-		value = float64(rawValue)*sigType.scale + sigType.offset
+
+		if sigType.signed {
+			value = float64(int64(extValue))*sigType.scale + sigType.offset
+		} else {
+			value = float64(rawValue)*sigType.scale + sigType.offset
+		}
 	}
 
 	return &SignalDecoding{
